@@ -96,7 +96,8 @@ def run_property(modname: str, tier: str, seed: int, replay: str | None = None) 
             print(f'replay file names a broken obligation, not an input: {payload.get("broken")}')
             print(json.dumps(lean['problems'], indent=1))
             return 0 if lean['ok'] else 1
-        res = mod.evaluate([case])[0]
+        emod = importlib.import_module(case['foundation']) if isinstance(case, dict) and case.get('foundation') else mod
+        res = emod.evaluate([case])[0]
         print(json.dumps(res['findings'], indent=1, default=str))
         bad = [f for f in res['findings'] if f['kind'] == 'property']
         if bad:
